@@ -706,11 +706,16 @@ def _one_blank(k):
 
 def _abl_key_blank_runs(lib, page):
     """Every run of blanks inside an argument / parameter name becomes one blank."""
+    def one(raw, key):
+        # only the run inside the name changes; blanks around the name stay as written
+        k = key.strip(" \t\n")
+        return (raw.replace(k, _one_blank(key)) if k in raw else _one_blank(key)), _one_blank(key)
+
     def fn(a):
         if a[0] == "P" and _one_blank(a[2]) != a[2].strip(" \t\n"):
-            return ("P", _one_blank(a[2]), _one_blank(a[2]), a[3])
+            return ("P",) + one(a[1], a[2]) + (a[3],)
         if a[0] == "C":
-            args = [(("named", _one_blank(x[2]), _one_blank(x[2])) + x[3:])
+            args = [(("named",) + one(x[1], x[2]) + x[3:])
                     if x[0] == "named" and _one_blank(x[2]) != x[2].strip(" \t\n") else x for x in a[3]]
             return ("C", a[1], a[2], args)
         return a
